@@ -131,7 +131,12 @@ pub fn resolver_of_json(v: &Value) -> Option<Resolver> {
         .and_then(Value::as_array)
         .map(|a| a.iter().filter_map(|e| Some((e.get("iss")?.as_str()?.to_string(), key_of_json(e.get("key")?)?))).collect())
         .unwrap_or_default();
-    Some(Resolver { default, by_iss })
+    let by_kid = v
+        .get("by_kid")
+        .and_then(Value::as_array)
+        .map(|a| a.iter().filter_map(|e| Some((e.get("kid")?.as_str()?.to_string(), key_of_json(e.get("key")?)?))).collect())
+        .unwrap_or_default();
+    Some(Resolver { default, by_iss, by_kid })
 }
 
 /// verifier arguments as stored in a replay case: {"input","fmt","resolver","aud","nonce"}
@@ -200,6 +205,24 @@ pub fn run_attacks_out(ctx: &mut Ctx, attacks: &[Attack]) -> Vec<Outcome<Value>>
         let case = json!({"attack": a.name, "input": a.args.input, "fmt": a.args.fmt.name(), "resolver": a.args.resolver.json(),
                           "aud": a.args.aud, "nonce": a.args.nonce, "origin": a.origin, "expect": a.expect.json()});
         let mut bad: Option<(String, Value)> = None;
+        // C02: the key is the one the resolver returns for THAT token's own signed header and issuer
+        if ctx.prop == "C02" {
+            if let Some(parts) = split(a.args.fmt, &a.args.input) {
+                let hdr = parts.header();
+                let iss = parts.payload().and_then(|p| p.get("iss").and_then(Value::as_str).map(String::from));
+                for (ciss, chdr) in &r.resolver_calls {
+                    let same_iss = iss.as_deref() == Some(ciss.as_str());
+                    let same_hdr = match (chdr.as_object(), hdr.as_ref().and_then(Value::as_object)) {
+                        (Some(c), Some(h)) => c.iter().all(|(k, v)| !v.is_string() || h.get(k) == Some(v)),
+                        _ => false,
+                    };
+                    if hdr.is_some() && iss.is_some() && (!same_iss || !same_hdr) {
+                        ctx.violation("oracle", "verify", &format!("the key resolver was asked with an issuer / header that is not the token's own signed one ({})", a.name), case.clone(),
+                                      json!({"resolver_called_with": {"iss": ciss, "header": chdr}}), json!({"iss": iss, "header": hdr}));
+                    }
+                }
+            }
+        }
         match (&r.out, &a.expect) {
             (Outcome::Panic(_), _) | (Outcome::Timeout, _) => bad = Some(("the verifier panicked or did not return".into(), json!("Ok or Err"))),
             (Outcome::Ok(_), Expect::Reject) => bad = Some((format!("accepted although it must be rejected ({})", a.name), json!("Err"))),
